@@ -11,12 +11,13 @@ import (
 type jmap = map[string]interface{}
 
 var (
-	genKeys     = []string{"a", "b", "c", "x-1", "$schema", "id", "a.a", "é", "headers"}
-	genStrings  = []string{"", "a", "ab", "abc", "héllo", "日本", "2020-01-01", "not-a-date", "x-1", "user@example.com", "aaa"}
-	genNumbers  = []string{"0", "1", "-1", "2", "3", "1.5", "2.5", "-3.5", "3.0", "10", "100", "0.1", "0.3", "7", "1e3", "4", "6", "0.5", "-2"}
-	genPatterns = []string{"^a", "a+", "^[a-z]+$", "^x-", "(", "\\d+", ".*", "^é", "b$"}
-	genFormats  = []string{"date", "date-time", "email", "uuid", "unknown-format"}
-	genTypes    = []string{"null", "boolean", "string", "number", "integer", "array", "object"}
+	genKeys       = []string{"a", "b", "c", "x-1", "$schema", "id", "a.a", "é", "headers"}
+	schemaishKeys = []string{"type", "items", "default", "example", "examples", "properties", "a"}
+	genStrings    = []string{"", "a", "ab", "abc", "héllo", "日本", "2020-01-01", "not-a-date", "x-1", "user@example.com", "aaa"}
+	genNumbers    = []string{"0", "1", "-1", "2", "3", "1.5", "2.5", "-3.5", "3.0", "10", "100", "0.1", "0.3", "7", "1e3", "4", "6", "0.5", "-2"}
+	genPatterns   = []string{"^a", "a+", "^[a-z]+$", "^x-", "(", "\\d+", ".*", "^é", "b$"}
+	genFormats    = []string{"date", "date-time", "email", "uuid", "unknown-format"}
+	genTypes      = []string{"null", "boolean", "string", "number", "integer", "array", "object"}
 )
 
 type sgen struct {
@@ -24,9 +25,19 @@ type sgen struct {
 	defNames  []string
 	malformed bool // degenerate keywords allowed (C06 stream)
 	edgeNums  bool
+	schemaish bool
 }
 
 func (g *sgen) pick(l []string) string { return l[g.rng.Intn(len(l))] }
+
+// member names: the usual pool, or (schemaish) the names a Swagger schema object carries - the Swagger-mode checks of the
+// object validator look at members called type / items and at paths ending in default, example, properties
+func (g *sgen) keys() []string {
+	if g.schemaish {
+		return schemaishKeys
+	}
+	return genKeys
+}
 
 func (g *sgen) num() json.Number {
 	if g.edgeNums && g.rng.Intn(8) == 0 {
@@ -68,7 +79,7 @@ func (g *sgen) value(depth int) interface{} {
 		n := g.rng.Intn(4)
 		m := jmap{}
 		for i := 0; i < n; i++ {
-			m[g.pick(genKeys)] = g.value(depth - 1)
+			m[g.pick(g.keys())] = g.value(depth - 1)
 		}
 		return m
 	}
@@ -165,7 +176,7 @@ func (g *sgen) schema(depth int, allowRef bool) jmap {
 				}
 				req := make([]interface{}, n)
 				for j := range req {
-					req[j] = g.pick(genKeys)
+					req[j] = g.pick(g.keys())
 				}
 				s["required"] = req
 			}
@@ -195,7 +206,7 @@ func (g *sgen) schema(depth int, allowRef bool) jmap {
 			n := 1 + g.rng.Intn(3)
 			props := jmap{}
 			for j := 0; j < n; j++ {
-				props[g.pick(genKeys)] = g.schema(depth-1, true)
+				props[g.pick(g.keys())] = g.schema(depth-1, true)
 			}
 			s["properties"] = props
 			switch g.rng.Intn(5) {
@@ -228,9 +239,9 @@ func (g *sgen) schema(depth int, allowRef bool) jmap {
 		default: // dependencies
 			deps := jmap{}
 			if g.rng.Intn(2) == 0 {
-				deps[g.pick(genKeys)] = []interface{}{g.pick(genKeys)}
+				deps[g.pick(g.keys())] = []interface{}{g.pick(g.keys())}
 			} else {
-				deps[g.pick(genKeys)] = g.schema(depth-1, false)
+				deps[g.pick(g.keys())] = g.schema(depth-1, false)
 			}
 			s["dependencies"] = deps
 		}
@@ -342,7 +353,7 @@ func (g *sgen) instanceFor(s jmap, defs jmap, depth int) interface{} {
 		}
 		extra := g.rng.Intn(3)
 		for i := 0; i < extra; i++ {
-			k := g.pick(genKeys)
+			k := g.pick(g.keys())
 			if _, ok := m[k]; ok {
 				continue
 			}
@@ -391,6 +402,7 @@ func schemaGen(seed int64, n int, tier string, out *bufio.Writer) {
 	for id := 0; id < n; id++ {
 		g.malformed = id%5 == 4
 		g.edgeNums = id%7 == 6
+		g.schemaish = id%11 == 10
 		depth := 1 + rng.Intn(3)
 		s, defs := g.rootSchema(depth)
 		var d interface{}
@@ -405,8 +417,19 @@ func schemaGen(seed int64, n int, tier string, out *bufio.Writer) {
 		if g.malformed && rng.Intn(3) == 0 {
 			c.UseNumber = true
 		}
-		if rng.Intn(16) == 0 {
+		if rng.Intn(16) == 0 || g.schemaish {
 			c.Swagger = true
+		}
+		if g.schemaish {
+			c.Root = []string{"", "default", "a.default", "properties", "x.example", "root"}[rng.Intn(6)]
+			if m, ok := d.(jmap); ok && rng.Intn(2) == 0 { // an object that looks like an array schema, or half of one
+				m["items"] = g.value(1)
+				if rng.Intn(2) == 0 {
+					m["type"] = g.pick([]string{"array", "object", "string"})
+				}
+			}
+			db, _ = json.Marshal(d)
+			c.Data = db
 		}
 		if rng.Intn(16) == 0 {
 			c.Skip = true
